@@ -65,8 +65,10 @@ int KSI_verifyPublicationsFile(KSI_CTX *ctx, const KSI_PublicationsFile *pubFile
 	return VERIF_ext.pubfile_verify_res;
 }
 
-/* base.c:1011 KSI_ERR_getBaseErrorMessage / compatibility.c:82 KSI_strdup: only used to decorate an inconclusive result
- * with the text of the first error; the text is not the subject (empty string). */
+/* base.c:1011 KSI_ERR_getBaseErrorMessage / compatibility.c:82 KSI_strdup: only used to decorate an inconclusive result with the text of
+ * the first error (HANDLE_RESOURCE_FAILURE, KSI_RuleVerificationResult_dup).  The text is not the subject: the message is the empty string
+ * and a duplicate of any string is a fresh empty string.  (Reading the caller's char buf[256] would exceed CBMC's field-sensitivity limit
+ * of 64 array elements and turn every access symbolic - measured: 3.4M instead of 0.1M variables.) */
 int KSI_ERR_getBaseErrorMessage(KSI_CTX *ctx, char *buf, size_t len, int *error, int *ext) {
 	if (ctx == NULL || buf == NULL) return KSI_INVALID_ARGUMENT;
 	if (len > 0) buf[0] = 0;
@@ -75,13 +77,11 @@ int KSI_ERR_getBaseErrorMessage(KSI_CTX *ctx, char *buf, size_t len, int *error,
 	return KSI_OK;
 }
 int KSI_strdup(const char *from, char **to) {
-	char *t; size_t n = 0, i;
+	char *t;
 	if (from == NULL || to == NULL) return KSI_INVALID_ARGUMENT;
-	while (n < 255 && from[n] != 0) n++;
-	t = (char *)malloc(n + 1);
+	t = (char *)malloc(1);
 	if (t == NULL) return KSI_OUT_OF_MEMORY;
-	for (i = 0; i < n; i++) t[i] = from[i];
-	t[n] = 0;
+	t[0] = 0;
 	*to = t;
 	return KSI_OK;
 }
